@@ -2,7 +2,20 @@
 
 enum Strat { No, Top, All, Custom(Seq<Seq<char>>) }
 uninterp spec fn index_key_spec(i: int) -> Seq<char>;
-uninterp spec fn next_paths_spec(paths: Seq<Seq<char>>, key: Seq<char>) -> Seq<Seq<char>>;
+// Custom strategy: descending into member / element `key` keeps the paths that continue below it:
+// "key.rest" -> "rest", "key[i]..." -> "[i]..."; everything else is dropped (a path naming no claim has no effect)
+spec fn next_path1(p: Seq<char>, key: Seq<char>) -> Option<Seq<char>> {
+    if key.len() <= p.len() && p.take(key.len() as int) == key {
+        let rest = p.skip(key.len() as int);
+        if rest.len() > 0 && rest[0] == '.' { Some(rest.skip(1)) } else if rest.len() > 0 && rest[0] == '[' { Some(rest) } else { None }
+    } else { None }
+}
+spec fn next_paths_spec(paths: Seq<Seq<char>>, key: Seq<char>) -> Seq<Seq<char>> decreases paths.len() {
+    if paths.len() == 0 { Seq::empty() } else {
+        let r = next_paths_spec(paths.drop_last(), key);
+        match next_path1(paths.last(), key) { Some(q) => r.push(q), None => r }
+    }
+}
 spec fn sd_spec(s: Strat, key: Seq<char>) -> bool {
     match s { Strat::No => false, Strat::Top => true, Strat::All => true, Strat::Custom(p) => p.contains(key) }
 }
